@@ -83,12 +83,12 @@ Proof.
 Qed.
 
 (* ---- postconditions and wp ---- *)
-Record post := mkPost { pc : env -> Prop; pr : string -> list Z -> Prop; pb : Prop }.
+Record post := mkPost { pc : env -> Prop; pr : string -> list Z -> env -> Prop; pb : Prop }.
 
 Definition sat (Q : post) (o : outcome) : Prop :=
   match o with
   | Cont e => pc Q e
-  | Returned tag vs => pr Q tag vs
+  | Returned tag vs e => pr Q tag vs e
   | Broke => pb Q
   | Panicked _ => False
   end.
@@ -111,7 +111,7 @@ Section WP.
     | EIf c a b =>
         (cmay c e true -> wp_list (wp_one wcall) a e Q) /\
         (cmay c e false -> wp_list (wp_one wcall) b e Q)
-    | ERet tag vs => pr Q tag (map (fun t => teval t e) vs)
+    | ERet tag vs => pr Q tag (map (fun t => teval t e) vs) e
     | ELoopRange i x body =>
         pc Q e /\
         (0 <= e (loop_oracle i) < e x ->
@@ -132,11 +132,12 @@ Section WP.
         | Some body =>
             wcall body (call_env e binds rfrom rto)
               (mkPost (fun _ => pc Q (bind_res e res []))
-                      (fun _ vs => pc Q (bind_res e res vs))
+                      (fun _ vs _ => pc Q (bind_res e res vs))
                       (pc Q (bind_res e res [])))
         | None => False
         end
-    | EDyn _ | EExt _ | ENote _ => pc Q e
+    | EDyn _ | EExt _ => pc Q e
+    | ENote s => pc Q (upd e (note_name s) (e (note_name s) + 1))
     | EUnknown _ => False
     end.
 
@@ -272,7 +273,7 @@ Section WP.
     apply Forall_forall. intros x _ e' Q' Hx. eapply wp_one_sound; [|exact Hx]. exact IH.
   Qed.
 
-  Definition top_post : post := mkPost (fun _ => True) (fun _ _ => True) True.
+  Definition top_post : post := mkPost (fun _ => True) (fun _ _ _ => True) True.
 
   Theorem wp_no_panic : forall fuel l e,
       wp fuel l e top_post -> Forall no_panic (exec prog fuel l e).
@@ -282,11 +283,11 @@ Section WP.
   Qed.
 
   (* every outcome is a return whose tag satisfies R (used for the rejection theorems) *)
-  Definition ret_post (R : string -> list Z -> Prop) : post := mkPost (fun _ => False) R False.
+  Definition ret_post (R : string -> list Z -> env -> Prop) : post := mkPost (fun _ => False) R False.
 
   Theorem wp_returns : forall fuel l e R,
       wp fuel l e (ret_post R) ->
-      Forall (fun o => exists tag vs, o = Returned tag vs /\ R tag vs) (exec prog fuel l e).
+      Forall (fun o => exists tag vs e', o = Returned tag vs e' /\ R tag vs e') (exec prog fuel l e).
   Proof.
     intros fuel l e R H. eapply Forall_impl; [|apply (wp_sound _ _ _ _ H)].
     intros [e'|t v| |t] Ho; cbn in Ho; try contradiction. eauto.
